@@ -102,7 +102,7 @@ def pack_instance(rng, cls, nmax=12):
         return C, [rng.randint(0 if rng.random() < 0.2 else 1, C) for _ in range(n)]
     if cls == "hardpack":
         C = rng.choice([24, 30, 60, 100, 120, 1000])
-        n = rng.randint(4, nmax)
+        n = rng.randint(min(4, nmax), nmax)
         pool = [rng.randint(max(1, C // 8), C // 2) for _ in range(rng.randint(2, 5))]
         v = [rng.choice(pool) if rng.random() < 0.7 else rng.randint(max(1, C // 8), C // 2) for _ in range(n)]
         if rng.random() < 0.5 and n >= 6:
